@@ -257,7 +257,7 @@ def coerce(v: Val, s: Sort) -> Val:
             return VOpt(s.none(), s)
         if isinstance(v, VOpt):
             return v
-        return VOpt(s.some(coerce(v, s.inner).t), s)
+        return VOpt(s.some(term_of(v, s.inner)), s)
     if isinstance(s, TList):
         if isinstance(v, VList):
             if v.sort == s:
